@@ -288,7 +288,7 @@ func (fr *Frame) loopHead(li *loopInfo, b *ssa.BasicBlock, phis []*ssa.Phi, pred
 	var invs []*Clause
 	if fr.isTop && spec != nil {
 		for _, c := range spec.Invs {
-			if c.Loop == li.ord {
+			if c.Loop == li.ord && fc.modeOK(c) {
 				invs = append(invs, c)
 			}
 		}
@@ -367,7 +367,7 @@ func (fr *Frame) backEdge(b, h *ssa.BasicBlock, cond string, st *State) {
 	}
 	env := fr.specEnv(st, h, over)
 	for _, c := range fc.spec.Invs {
-		if c.Loop != li.ord {
+		if c.Loop != li.ord || !fc.modeOK(c) {
 			continue
 		}
 		f := env.bool(c.Expr)
@@ -388,6 +388,7 @@ func (fr *Frame) specEnv(st *State, at *ssa.BasicBlock, phiOver map[*ssa.Phi]Val
 	env.lookup = func(name string) (Val, bool) {
 		return fr.lookupLocal(name, st, at, phiOver)
 	}
+	env.localsFirst = at != nil
 	return env
 }
 
@@ -651,7 +652,7 @@ func (fr *Frame) instr(in ssa.Instruction, b *ssa.BasicBlock, st *State) *State 
 			fc.declareConst(n, "Int")
 			payload = sym(n)
 		}
-		fr.vals[x] = Val{T: x.Type(), Sub: []Val{{T: tInt, S: tag}, {T: tInt, S: payload}}}
+		fr.vals[x] = Val{T: x.Type(), Sub: []Val{{T: tRef, S: tag}, {T: tRef, S: payload}}}
 		return st
 	case *ssa.TypeAssert:
 		return fr.typeAssert(x, b, st)
@@ -674,7 +675,7 @@ func (fr *Frame) instr(in ssa.Instruction, b *ssa.BasicBlock, st *State) *State 
 		st = st2
 		et := x.Type().Underlying().(*types.Slice).Elem()
 		st = fc.zeroRow(st, ref, et)
-		fr.vals[x] = Val{T: x.Type(), Sub: []Val{{T: tInt, S: ref}, {T: tInt, S: z}, {T: tInt, S: ln}, {T: tInt, S: cp}}}
+		fr.vals[x] = Val{T: x.Type(), Sub: []Val{{T: tRef, S: ref}, {T: tInt, S: z}, {T: tInt, S: ln}, {T: tInt, S: cp}}}
 		if m.mode == ModeInt {
 			fc.assume(sImp(g, sx("<=", cp, "4611686018427387904")), "allocation size is addressable")
 		}
@@ -1203,7 +1204,7 @@ func (fr *Frame) sliceOp(x *ssa.Slice, b *ssa.BasicBlock, st *State) *State {
 		}
 		fr.safety("slice", sAnd(m.cmp(token.LEQ, z, lo, tInt), m.cmp(token.LEQ, lo, hi, tInt), m.cmp(token.LEQ, hi, n, tInt)), b, x)
 		fr.safety("nil", sNot(sEq(v.S, "0")), b, x)
-		r := Val{T: x.Type(), Sub: []Val{{T: tInt, S: v.S}, {T: tInt, S: lo}, {T: tInt, S: e.idxSub(hi, lo)}, {T: tInt, S: e.idxSub(n, lo)}}}
+		r := Val{T: x.Type(), Sub: []Val{{T: tRef, S: v.S}, {T: tInt, S: lo}, {T: tInt, S: e.idxSub(hi, lo)}, {T: tInt, S: e.idxSub(n, lo)}}}
 		fr.vals[x] = fr.nameVal(r, x.Name())
 	case *types.Basic: // string
 		hi := sx("strlen", v.S)
